@@ -173,10 +173,10 @@ static std::string cmd_walk(const std::vector<std::string> &args)
   Memory *memory = new Memory();
   isa_load(memory, cpu, start, bytes);
   capture_take();
-  signal(SIGALRM, isa_alarm);
-  alarm(20);
+  signal(SIGPROF, isa_alarm);
+  nv_cpu_alarm(20);
   cpu->disasm_range(memory, cpu->flags, start, end);
-  alarm(0);
+  nv_cpu_alarm(0);
   std::string printed = capture_take();
   delete memory;
   std::string out;
